@@ -25,6 +25,8 @@ type c14world struct {
 	decl   *ir.Func // declared void function (callee of void calls)
 	funcs  []*ir.Func
 	nname  int
+	limit  *constant.Int   // integer constant in use by @limit; edited in place by one operation
+	ratio  *constant.Float // floating-point constant in use by @ratio
 }
 
 func c14new() *c14world {
@@ -32,6 +34,10 @@ func c14new() *c14world {
 	w.st = types.NewStruct(types.I32, types.I32)
 	w.origin = w.m.NewGlobalDef("origin", constant.NewZeroInitializer(w.st))
 	w.decl = w.m.NewFunc("ext", types.Void)
+	w.limit = constant.NewInt(types.I64, 4096)
+	w.m.NewGlobalDef("limit", w.limit)
+	w.ratio = constant.NewFloat(types.Double, 1.5)
+	w.m.NewGlobalDef("ratio", w.ratio)
 	return w
 }
 
@@ -128,6 +134,11 @@ func c14ops() []c14op {
 		{"set AddrSpace = 1 on the first global", "set-addrspace", "global-type", func(w *c14world) bool {
 			return len(w.m.Globals) > 0 && w.m.Globals[0].AddrSpace == 0
 		}, func(w *c14world) { w.m.Globals[0].AddrSpace = 1 }},
+		{"double the integer constant of @limit in place (X.Lsh)", "edit-constant", "constant", func(w *c14world) bool { return w.limit.X.BitLen() < 40 }, func(w *c14world) {
+			// the value is reachable through the exported *big.Int; the constant is in use.
+			w.limit.X.Lsh(w.limit.X, 1)
+		}},
+		{"negate the floating-point constant of @ratio in place (X.Neg)", "edit-constant", "constant", nil, func(w *c14world) { w.ratio.X.Neg(w.ratio.X) }},
 		{"append metadata def with explicit sparse ID", "append-metadata-explicit", "metadata", func(w *c14world) bool {
 			for _, d := range w.m.MetadataDefs {
 				if d.ID() == 7 {
